@@ -584,8 +584,9 @@ class AclMachine(Machine):
                 self._fail("C02", "C02.converge", f"there/back/there differs:\n{res[0]}\n---\n"
                                                   f"{res[1]}", opkind=k)
             if not res[2]:
-                self._fail("C02", "C02.converge", "there/back/there: data() differs although the "
-                                                  "text converged", opkind=k)
+                # not judged: the statement speaks about the text (an ios->nxos flip regroups
+                # loose entries under group_by, which changes data() but not the text)
+                self.probes["flip3_data_differs"] += 1
         elif k == "tcam":
             self._oracle_tcam(slot, res)
         elif k in ("shading", "shadow_of"):
